@@ -119,19 +119,42 @@ func prepareStatic(prop string, specs []*spec.Spec, types bool) *staticRun {
 	}
 	// multi-file programs: one invocation with all files for even programs,
 	// one invocation per file for odd ones
-	var one, per []*runner.Prog
-	for i, p := range gen {
-		if i%2 == 0 {
-			one = append(one, p)
-		} else {
+	var one, per, forcedSolo []*runner.Prog
+	var pairs [][2]*runner.Prog
+	byName := map[string]*runner.Prog{}
+	for _, p := range gen {
+		byName[p.Spec.Name] = p
+	}
+	i := 0
+	for _, p := range gen {
+		switch p.Spec.InvMode {
+		case "one":
+			forcedSolo = append(forcedSolo, p)
+		case "per":
 			per = append(per, p)
+		case "pair":
+			if q := byName[p.Spec.PairWith]; q != nil {
+				pairs = append(pairs, [2]*runner.Prog{q, p})
+			} else {
+				forcedSolo = append(forcedSolo, p)
+			}
+		case "first":
+			if byName[p.Spec.PairWith] == nil {
+				forcedSolo = append(forcedSolo, p)
+			}
+		default:
+			if i%2 == 0 {
+				one = append(one, p)
+			} else {
+				per = append(per, p)
+			}
+			i++
 		}
 	}
 	// every fourth "one invocation" program is generated together with its
 	// neighbour in a single CLI invocation spanning two packages (the name
 	// allocator is shared across all files of an invocation)
-	var solo []*runner.Prog
-	var pairs [][2]*runner.Prog
+	solo := forcedSolo
 	for i := 0; i < len(one); i++ {
 		if i%4 == 0 && i+1 < len(one) {
 			pairs = append(pairs, [2]*runner.Prog{one[i], one[i+1]})
@@ -267,6 +290,10 @@ func CheckC04(tier string) {
 		if p.PreErr != "" {
 			rep.Eval("")
 			rep.Inconc("harness package does not compile: " + s.Name + ": " + firstLine(p.PreErr))
+			continue
+		}
+		if hangVerdict(rep, "C09", p) {
+			rep.Eval("")
 			continue
 		}
 		if !p.GenOK || len(p.Band) == 0 {
